@@ -181,8 +181,9 @@ def run_check(mod, ctx, prop, tier, seed, t0, args):
         by_key.setdefault(k, v)
     new_viol = []; known_hit = []; not_repro = []
     replay_cap = spec.get('replay_cap', 40)
+    max_reported = spec.get('max_reported', 12)
     for i, (k, v) in enumerate(by_key.items()):
-        if i >= replay_cap: break
+        if i >= replay_cap or len(new_viol) >= max_reported: break      # enough confirmed violations to report; the rest is counted, not replayed
         try:
             st, detail = mod.replay(ctx, v)
         except Exception as ex:
